@@ -872,8 +872,11 @@ def family_text_corr(check, tier):
     from spyne.protocol.http import HttpRpc
     from lxml import etree
     rng = check.rng
+    from spyne.protocol.yaml import YamlDocument
+    from spyne.protocol.msgpack import MessagePackDocument
     xml = XmlDocument(validator='soft')
-    js = JsonDocument(validator='soft')
+    hiers = [('json', JsonDocument(validator='soft')), ('yaml', YamlDocument(validator='soft')),
+             ('msgpack', MessagePackDocument(validator='soft'))]
     http = HttpRpc(validator='soft')
     cases = []
     def add(path, T, nil, v, o, what):
@@ -897,7 +900,8 @@ def family_text_corr(check, tier):
                 el.text = s if s else None
                 el.set('{%s}nil' % XSI, rng.choice(['true', '1']))
                 add(0, T, True, s if s else None, observe(xml.from_element, None, T, el), 'xml nil %r %r' % (kw, s))
-            add(2, T, False, s, observe(js._from_dict_value, None, 'k', T, s, js.validator), 'json %r %r' % (kw, s))
+            hn, hp = rng.choice(hiers)      # the three hierarchical protocols share _from_dict_value
+            add(2, T, False, s, observe(hp._from_dict_value, None, 'k', T, s, hp.validator), '%s %r %r' % (hn, kw, s))
             if s is not None:
                 el = etree.Element('x')
                 try:
@@ -932,8 +936,11 @@ def family_range_corr(check, tier):
     from lxml import etree
     from c08 import g_dt, g_date, g_tod, dt_literals
     rng = check.rng
+    from spyne.protocol.yaml import YamlDocument
+    from spyne.protocol.msgpack import MessagePackDocument
     xml = XmlDocument(validator='soft')
-    js = JsonDocument(validator='soft')
+    hiers = [('json', JsonDocument(validator='soft')), ('yaml', YamlDocument(validator='soft')),
+             ('msgpack', MessagePackDocument(validator='soft'))]
     def tz(o):
         return D.timezone(D.timedelta(minutes=o))
     def rdt(near=None):
@@ -1002,8 +1009,9 @@ def family_range_corr(check, tier):
                 nil = lit is None and rng.random() < .5
                 if nil:
                     el.set('{%s}nil' % XSI, 'true')
+                hn, hp = rng.choice(hiers)
                 for path, o in (('xml', observe(xml.from_element, None, T, el)),
-                                ('doc', observe(js._from_dict_value, None, 'k', T, lit, js.validator))):
+                                ('doc', observe(hp._from_dict_value, None, 'k', T, lit, hp.validator))):
                     if path == 'xml' and lit == '':
                         src = None
                     else:
@@ -1019,7 +1027,7 @@ def family_range_corr(check, tier):
                     if path == 'xml':
                         cases['xml'].append(('(%s, %s, %s, %s)' % (ga, gbool(nil), gopt(src, gtext), go), '%s%r xml nil=%s %r -> %r' % (kind, kw, nil, lit, o)))
                     else:
-                        cases['doc'].append(('(%s, %s, %s)' % (ga, gopt(src, gtext), go), '%s%r json %r -> %r' % (kind, kw, lit, o)))
+                        cases['doc'].append(('(%s, %s, %s)' % (ga, gopt(src, gtext), go), '%s%r %s %r -> %r' % (kind, kw, hn, lit, o)))
                     check.count(('rcorr', kind, path, str(kw), lit))
         low = {'DateTime': 'datetime', 'Date': 'date', 'Time': 'time'}[kind]
         vt = {'DateTime': 'datetime', 'Date': 'date', 'Time': 'tod'}[kind]
